@@ -301,7 +301,7 @@ def negative_lattice(tier, seed):
             "all_forces": dict(extra={"excited_states": {"n_states": 2, "method": "cis"}, "do_all_forces": True}, force_mode="analytical"),
         }
         for name, kw in feats.items():
-            reqs.append(_req("mixed_batch", "finite", meth, [{"name": "H2O"}, {"name": "H2O"}], seed, fault="none(base)", option=name, eps=1e-8, **kw))
+            reqs.append(_req("mixed_batch", "finite", meth, [{"name": "H2O"}, {"name": "H2O"}], seed, fault=f"none(base for {name})", option=name, eps=1e-8, **kw))
             for het in ([["H2O", "NH3"], ["H2CO", "CH4"]] if not quick else [["H2O", "NH3"]]):
                 reqs.append(_req("mixed_batch", "raise", meth, [{"name": x} for x in het], seed, fault=f"hetero+{name}", option=name, eps=1e-8, **kw))
         # --- F6 active state without excited-state settings
@@ -322,7 +322,7 @@ def negative_lattice(tier, seed):
         for mode in bad_modes:
             reqs.append(_req("remove_com", "raise", "AM1", [{"name": "H2O"}], seed, fault=f"remove_com={mode!r}", md={"engine": eng, "remove_com": mode}))
         for mode in good_modes:
-            reqs.append(_req("remove_com", "finite", "AM1", [{"name": "H2O"}], seed, fault="none(valid mode)", md={"engine": eng, "remove_com": mode}))
+            reqs.append(_req("remove_com", "finite", "AM1", [{"name": "H2O"}], seed, fault=f"none(valid mode {mode!r})", md={"engine": eng, "remove_com": mode}))
         for mode in (["linear", 0], ["linear", "a"]):
             reqs.append(_req("unlisted", "record", "AM1", [{"name": "H2O"}], seed, fault=f"remove_com stride {mode[1]!r}", md={"engine": eng, "remove_com": mode}))
     # --- unlisted preconditions: executed and recorded
